@@ -84,6 +84,7 @@ func flush(r *sup.CaseResult, st *seqStats, prefix string) {
 	r.AddObs(prefix+"_repeated_requests", st.repeats)
 	r.AddObs(prefix+"_cached_uncached_pairs", st.cachePairs)
 	r.AddObs(prefix+"_layering_model_checks", st.modelChecks)
+	r.AddObs(prefix+"_base_or_layout_answers_executed_as_handed_out", st.directExec)
 }
 
 func nontrivial(p *Program, reqs []Req) bool {
